@@ -23,7 +23,7 @@ ASSUMPTIONS = ["(a)/(c): the polyline crossing finder (vp/ref/xgeom.py) locates 
                "cannot classify are discarded and counted", "(b): vp/ref/exactgeom.py Sturm sequences in Fractions"]
 CONFIGS = ['scipy']
 BUDGET = {'quick': 16000, 'thorough': 300000}
-REQUIRED = ['a:kept', 'a:pair:AC', 'a:pair:CA', 'a:pair:LA', 'a:pair:QQ', 'a:pair:CC', 'a:arc_sweep0', 'a:arc_sweep1', 'b:kept',
+REQUIRED = ['a:special:arch', 'a:special:long_arc', 'a:kept', 'a:pair:AC', 'a:pair:CA', 'a:pair:LA', 'a:pair:QQ', 'a:pair:CC', 'a:arc_sweep0', 'a:arc_sweep1', 'b:kept',
             'b:count1', 'b:count2', 'b:count0', 'c:kept', 'b:count3']
 CASE_TIMEOUT = 20
 TIME_LIMIT = {'quick': 250, 'thorough': 3300}
@@ -46,9 +46,40 @@ def constructed(draw):
         spec = a['spec']
         q = X.spec_eval(spec, np.array([u]))[0]
         return X.shift_spec(spec, P - q)
-    s1 = draw(arc_through(u1)) if k1 == 'A' else draw(c11.curve_through(k1, P, u1, sc))
+    special = draw(st.sampled_from(['none', 'none', 'none', 'arch', 'long_arc']))
+    if special == 'arch' and k2 in 'QC':
+        # a cubic whose cubic coefficient vanishes exactly in x and/or y (symmetric arch, equally spaced abscissae, exact degree
+        # elevation with integers divisible by 3); the crossing point is taken on it
+        w, h = draw(st.integers(1, 6)) * 3.0 * sc, draw(st.integers(1, 6)) * 3.0 * sc * draw(st.sampled_from([1, -1]))
+        o = complex(draw(gen.coord(sc)), draw(gen.coord(sc)))
+        kind = draw(st.sampled_from(['arch', 'elevated']))
+        if kind == 'arch':
+            pts = [o, o + complex(w / 3, h), o + complex(2 * w / 3, h), o + complex(w, 0)]
+        else:
+            q0, q1, q2 = o, o + complex(w / 2 * draw(st.sampled_from([1.0, 0.5])), h), o + complex(w, h / 3)
+            pts = [q0, q0 + (q1 - q0) * 2 / 3, q2 + (q1 - q2) * 2 / 3, q2]
+        s1 = ['C'] + [[z.real, z.imag] for z in pts]
+        k1 = 'C'
+        Pz = X.spec_eval(s1, np.array([u1]))[0]
+        P = complex(Pz)
+    elif special == 'long_arc' and k2 in 'QC':
+        # a clockwise (or counter-clockwise) arc of more than 300 degrees crossed on its last stretch
+        a = draw(gen.arc_center_form(scale_strategy=st.just(sc), max_ecc=4))
+        spec = list(a['spec'])
+        mag = draw(gen.floats_in(300.0, 355.0))
+        sw = draw(st.integers(0, 1))
+        st_ = gen.ellipse_point(a['center'], a['rx'], a['ry'], a['rot'], a['theta1'])
+        en = gen.ellipse_point(a['center'], a['rx'], a['ry'], a['rot'], a['theta1'] + (mag if sw else -mag))
+        s1 = ['A', st_, [a['rx'], a['ry']], a['rot'], 1, sw, en]
+        k1 = 'A'
+        u1 = draw(gen.floats_in(0.8, 0.95))
+        P = complex(X.spec_eval(s1, np.array([u1]))[0])
+    if special in ('arch', 'long_arc') and k2 in 'QC':
+        pass
+    else:
+        s1 = draw(arc_through(u1)) if k1 == 'A' else draw(c11.curve_through(k1, P, u1, sc))
     s2 = draw(arc_through(u2)) if k2 == 'A' else draw(c11.curve_through(k2, P, u2, sc))
-    return {'what': 'a', 'scale': sc, 's1': s1, 's2': s2, 'P': [P.real, P.imag], 'u1': u1, 'u2': u2}
+    return {'what': 'a', 'scale': sc, 's1': s1, 's2': s2, 'P': [P.real, P.imag], 'u1': u1, 'u2': u2, 'special': special if k2 in 'QC' else 'none'}
 
 
 ipt = st.tuples(st.integers(-8, 8), st.integers(-8, 8)).map(list)
@@ -150,6 +181,8 @@ def check_constructed(case, ctx):
         ctx.discard('identical segments')
     pair = s1[0] + s2[0]
     ctx.count('a:kept')
+    if case.get('special', 'none') != 'none':
+        ctx.count('a:special:' + case['special'])
     ctx.count('a:pair:' + pair)
     for s in (s1, s2):
         if s[0] == 'A':
